@@ -28,6 +28,7 @@ func (pt *WgCounter) Count() int {
 func (pt *WgCounter) Done() bool {
 	for {
 		count := pt.count.Load()
+		vhook("wgc.load", count)
 
 		if count == 0 {
 			return false
